@@ -14,5 +14,6 @@ INVARIANT InvImplRefinesIdeal
 INVARIANT InvLazyShape
 INVARIANT InvKeysUnique
 INVARIANT InvStaleCharacterised
+INVARIANT InvSerObservation
 PROPERTY RefusalIsNoOp
 CHECK_DEADLOCK FALSE
